@@ -16,7 +16,10 @@ import re, math, traceback
 ID    = "C06"
 LEVEL = "exploration"
 RULE  = ("seeded environments (context absent/None/scalar/dense/sparse/categorical/lazy; int/float/str/dense/sparse/"
-         "categorical/continuous actions; list, Discrete (pair+mapping), Binary, L1, user-callable rewards; logged "
+         "categorical/continuous actions, plus 'exact-identity' action sets -- ints beyond 2**53 (adjacent ids, beyond int64), "
+         "floats one ulp apart / denormal / huge, near-twin strings (case, blanks, numerals, unicode forms), tuples of those, "
+         "and sets mixing numbers, numerals and big ints -- whose members a lossy conversion would alter or merge; values "
+         "beyond float precision also inside contexts, extra fields and table rewards; list, Discrete (pair+mapping), Binary, L1, user-callable rewards; logged "
          "fields; extra fields; Batch(n)) x learn in {on,off,ips,None} x eval in {on,ips,None} x any subset of the 7 "
          "record options x scripted recording learner (8 prediction formats, with/without score, batch-aware or not); "
          "a case is one evaluate() call checked against the reference model (+ its unbatched twin, + one rejection run "
@@ -33,7 +36,10 @@ REQUIRED = ["oracle.trace.order", "oracle.trace.predict", "oracle.trace.learn.on
             "oracle.rows.no-unrequested", "oracle.rows.context", "oracle.rows.actions", "oracle.rows.rewards",
             "oracle.rows.time", "oracle.metamorphic.batched==unbatched", "oracle.reject", "oracle.trace.batched",
             "oracle.ragged.ips-reward.learn", "oracle.ragged.ips-reward.rows.predict", "oracle.ragged.ips-reward.rows.score",
-            "oracle.ragged.extras.present", "oracle.ragged.extras.absent"]
+            "oracle.ragged.extras.present", "oracle.ragged.extras.absent"] + [
+            f"oracle.exact.predict-actions:{k}" for k in ("bigint", "nearfloat", "nearstr", "bigtuple", "mixed")] + [
+            "oracle.exact.learn-action", "oracle.exact.rows-action", "oracle.exact.rows-actions",
+            "oracle.exact.reward.learn", "oracle.exact.reward.rows"]
 ASSUMPTIONS = [
     "dr/dm modes and record='ope_loss' need vowpalwabbit and are excluded",
     "context / actions / rewards / action / reward are present on every interaction of an environment or on none (coba's "
@@ -48,6 +54,11 @@ ASSUMPTIONS = [
     "ragged extra fields are only generated when every row holds at least one requested column (otherwise empty rows are "
     "legitimately not yielded and the row/interaction correspondence is undefined); a row must carry exactly the extra "
     "fields of its own interaction",
+    "actions, contexts and extra fields are compared with == (Python compares int and float exactly), so a representation "
+    "change that keeps the value (SafeLearner hands the actions 0/1 over as 0.0/1.0) is accepted while any change of the "
+    "value -- however small -- is not; rewards of table-like reward functions (sequence, DiscreteReward, BinaryReward, "
+    "user look-up) in the on-policy modes are handed through untransformed and must be the same number, computed rewards "
+    "(L1, linear, IPS) are compared with a relative tolerance of 1e-12",
     "action sets hold pairwise distinct actions; extra fields are plain data (no callables) with neutral names",
     "what the learner sees is compared with the original only when the environment is already final (no Categorical, "
     "no lazy rows); otherwise only positional relations (chosen index -> reward of that index) are asserted",
@@ -140,12 +151,12 @@ def reward_at(rs, j=None, x=None):
 def gen_context(rng, kind, t):
     s = 100 + t            # unique serial
     if kind in ("absent", "none"): return None
-    if kind == "int":    return s
+    if kind == "int":    return s if rng.random() < .7 else BIG + 2*s
     if kind == "float":  return s + 0.5
     if kind == "str":    return f"c{s}"
-    if kind == "list":   return [s, rng.choice([0, 1, 2.5, -1]), rng.choice(["u", "v", 3])][:rng.choice([1, 2, 3])]
+    if kind == "list":   return [s, rng.choice([0, 1, 2.5, -1, BIG, 0.1 + 0.2]), rng.choice(["u", "v", 3, " u"])][:rng.choice([1, 2, 3])]
     if kind == "tuple":  return T(*[s, rng.choice([0, 1, 2.5]), rng.choice([7, "w"])][:rng.choice([1, 2, 3])])
-    if kind == "sparse": return D(id=s, **{rng.choice(["a", "b", "c"]): rng.choice([0, 1, 2.5, "z"])})
+    if kind == "sparse": return D(id=s, **{rng.choice(["a", "b", "c"]): rng.choice([0, 1, 2.5, "z", BIG + 2])})
     if kind == "cat":    return [s, {"t": "cat", "v": rng.choice(["p", "q", "r"]), "levels": ["p", "q", "r"]}, rng.choice([1, 2])]
     if kind == "lazy":   return {"t": "lazy", "v": [s, rng.choice([0, 1, 2.5]), rng.choice(["u", 3])]}
     raise ValueError(kind)
@@ -159,8 +170,20 @@ A_POOL = {
     "list":  [[1, 2], [2, 1], [0, 0], [3, 4], ["a", 1]],
     "sparse": [D(a=1), D(b=1), D(a=1, b=2), D(c=0.5), D(a=2)],
     "cat":   [{"t": "cat", "v": l, "levels": ["r", "g", "b", "y"]} for l in ["r", "g", "b", "y"]],
+    # ---- "exact-identity" action sets: pairwise distinct actions that a lossy conversion (int->float, float->int,
+    #      float rounding, str()/strip()/lower(), number<->numeral) would alter or merge with a neighbour
+    "bigint":    [2**53 + 1, 2**53 + 2, 2**53 + 3, 2**53 + 5, -(2**53) - 1, 2**63 - 1, 2**63 + 1, 2**64 + 1, 10**20 + 1, 3*2**60 + 7],
+    "nearfloat": [0.1 + 0.2, 0.3, 1e16, 1e16 + 2, 1.0000000000000002, 2.0000000000000004, 5e-324, 1e-300, 1e300, float(2**53), -0.30000000000000004, 2.5],
+    "nearstr":   ["a", "A", " a", "a ", "1", "1.0", "01", "", "None", "a\n", "\u00e9", "e\u0301"],
+    "bigtuple":  [T(2**53 + 1, 0), T(2**53 + 2, 0), T(0, 2**53 + 1), T(0.1 + 0.2, 1), T(0.3, 1), T(2**63 + 1, 0.5)],
+    "mixed":     [2, 2.5, "2", "2.5", 2**53 + 1, float(2**53), "a", 3, -2, 2**64 + 1],
 }
 CONT = ("cont_empty", "cont_none")
+EXACT_KINDS = ("bigint", "nearfloat", "nearstr", "bigtuple", "mixed")
+SCALAR_KINDS = ("int", "float", "str", "bigint", "nearfloat", "nearstr", "mixed")
+BIG = 2**53 + 1           # the smallest positive int that is not a float
+
+RW_POOL = [0, 1, 0.25, -2, 3, 0.5, 10, 0.1 + 0.2, 0.3, 1/3, 1e-17, 1 + 2**-52]
 
 def gen_case(rng):
     learn, eval_ = rng.choice(LEARN), rng.choice(EVAL)
@@ -182,11 +205,12 @@ def gen_case(rng):
 
     ckind = rng.choice(["absent", "none", "int", "float", "str", "list", "list", "tuple", "sparse", "sparse", "cat", "lazy"])
     akind = rng.choice(["int", "int", "float", "str", "tuple", "pair", "list", "sparse", "cat", "cont_empty", "cont_none"])
+    if rng.random() < .25: akind = rng.choice(EXACT_KINDS)
     if not has_actions: akind = "none"
     if ckind == "absent" and not has_actions and not has_logged: ckind = "int"       # an interaction has at least one field
     cont  = akind in CONT
     if akind in CONT:      rkinds = ["l1", "lin"]
-    elif akind in ("int", "float"): rkinds = ["list", "list", "dpair", "dmap", "binary", "l1", "fn"]
+    elif akind in ("int", "float", "bigint", "nearfloat"): rkinds = ["list", "list", "dpair", "dmap", "binary", "l1", "fn"]
     elif akind in ("list", "sparse"): rkinds = ["list", "dpair", "binary", "fn"]
     elif akind == "cat":   rkinds = ["list", "dpair", "dmap", "dmap", "binary", "fn"]
     else:                  rkinds = ["list", "dpair", "dmap", "binary", "fn"]
@@ -215,10 +239,10 @@ def gen_case(rng):
                     base_actions = acts
             it["actions"] = acts
         if has_rewards:
-            if rkind in ("list", "dpair", "fn"): rs = {"kind": rkind, "v": [rng.choice([0, 1, 0.25, -2, 3, 0.5, 10]) for _ in acts]}
+            if rkind in ("list", "dpair", "fn"): rs = {"kind": rkind, "v": [rng.choice(RW_POOL) for _ in acts]}
             elif rkind == "dmap":
                 order = list(range(len(acts))); rng.shuffle(order)
-                rs = {"kind": "dmap", "v": [rng.choice([0, 1, 0.25, -2, 3, 0.5]) for _ in acts], "order": order}
+                rs = {"kind": "dmap", "v": [rng.choice(RW_POOL) for _ in acts], "order": order}
             elif rkind == "binary": rs = {"kind": "binary", "j": rng.randrange(len(acts)), "value": rng.choice([1, 1, 0.5, 3])}
             elif rkind == "l1":  rs = {"kind": "l1", "argmax": rng.choice([0, 0.5, 1, 2, -1.5])}
             elif rkind == "lin": rs = {"kind": "lin", "a": rng.choice([1, -2, 0.5]), "b": rng.choice([0, 1])}
@@ -232,7 +256,7 @@ def gen_case(rng):
             it["reward"] = rng.choice([0, 1, 2, -1, 0.5, 3, 0.75])
             if has_prob: it["probability"] = rng.choice([0.1, 0.2, 0.25, 0.5, 0.75, 1.0, 1/3])
         for k in extras_keys:
-            it[k] = rng.choice([t, f"s{t}", t + 0.5, None, [t, "x"], D(k=t), T(t, 1), True, ""])
+            it[k] = rng.choice([t, f"s{t}", t + 0.5, None, [t, "x"], D(k=t), T(t, 1), True, "", BIG + 2*t, [BIG + 2*t, 0.1 + 0.2], f" s{t} "])
         inter.append(it)
 
     # ---- learner script
@@ -247,7 +271,7 @@ def gen_case(rng):
           "kw": [({"k": 7*t + 1} if rng.random() < .7 else {"k": 7*t + 1, "m": f"m{t}"}) for t in range(N)] if rng.random() < .85
                 else [{"k": 7*t + 1, "m": f"m{t}"} for t in range(N)],
           "s": [round((t + 2) / (N + 5), 6) for t in range(N)],
-          "x": [rng.choice([0, 1, 2, 0.5, 3.5, -1]) for _ in range(N)], "style": "row"}
+          "x": [rng.choice([0, 1, 2, 0.5, 3.5, -1, BIG, 0.1 + 0.2]) for _ in range(N)], "style": "row"}
     r = rng.random()
     if r < .1: ls["p"][rng.randrange(N)] = 0.0                    # a stated probability of zero is still a probability
     elif r < .2: ls["kw"] = [{} for _ in range(N)]                # empty kwargs
@@ -415,7 +439,7 @@ def build_interactions(spec, drop=None):
         if "actions" in it: d["actions"] = dec(it["actions"])
         if "rewards" in it: d["rewards"] = build_rewards(it["rewards"], d["actions"])
         if "action" in it:
-            d["action"] = d["actions"][it["_lk"]] if it.get("_lk") is not None and spec["kinds"]["actions"] in ("int", "float", "str") else dec(it["action"])
+            d["action"] = d["actions"][it["_lk"]] if it.get("_lk") is not None and spec["kinds"]["actions"] in SCALAR_KINDS else dec(it["action"])
             d["reward"] = it["reward"]
             if "probability" in it: d["probability"] = it["probability"]
         for k, v in it.items():
@@ -443,6 +467,35 @@ def num_eq(a, b):
             return math.isclose(a, b, rel_tol=1e-12, abs_tol=1e-15)
     except Exception: pass
     return False
+
+def rew_eq(a, b, exact):
+    """exact: the value is handed through untransformed (a table reward in an on-policy mode), so it must be the same number"""
+    if not exact: return num_eq(a, b)
+    try: return bool(a == b)
+    except Exception: return False
+
+def _alter_mode(seen, orig):
+    """failure mode of an action (list) that did not arrive as the environment holds it: which conversion it looks like"""
+    def one(s, o):
+        if isinstance(o, (list, tuple)) and isinstance(s, (list, tuple)) and len(s) == len(o):
+            for x, y in zip(s, o):
+                if not (x == y): return one(x, y)
+        num = lambda v: isinstance(v, (int, float)) and not isinstance(v, bool)
+        if num(o) and num(s):
+            k = f"{type(o).__name__}->{type(s).__name__}"
+            try: return k + ("-lossy" if type(o) is not type(s) and math.isclose(s, o, rel_tol=1e-9) else "-rounded" if math.isclose(s, o, rel_tol=1e-9, abs_tol=1e-290) else "-wrong-value")
+            except Exception: return k
+        if isinstance(o, str) and isinstance(s, str): return "str-altered"
+        return f"{type(o).__name__}->{type(s).__name__}"
+    try:
+        if isinstance(orig, list):                 # an action set
+            seen = list(seen)
+            if len(seen) != len(orig): return "count"
+            for x, y in zip(seen, orig):
+                if not (x == y): return one(x, y)
+            return "wrong-value"
+        return one(seen, orig)
+    except Exception: return "wrong-value"
 
 def _is_final(spec): return spec["kinds"]["context"] not in ("cat", "lazy") and spec["kinds"]["actions"] != "cat" and not spec["kinds"].get("cat_action")
 
@@ -492,6 +545,10 @@ def model_check(spec, rows, trace, batch, note, p_default=None):
     bt, ft = ("/batched" if batch else ""), ("" if final else "/non-final")
     mtag, ltag, etag, btag, ftag = f"learn={learn}/eval={eval_}{bt}", f"learn={learn}{bt}", f"eval={eval_}{bt}", bt.strip("/") or "unbatched", (bt + ft).strip("/") or "unbatched"
     V = []
+    exact_kind = kinds["actions"] if kinds["actions"] in EXACT_KINDS else None       # action sets only an exact hand-through preserves
+    xnote = (lambda name: note(f"oracle.exact.{name}")) if exact_kind else (lambda name: None)
+    xtag  = (lambda seen, orig: f"/{exact_kind}-actions/{_alter_mode(seen, orig)}") if exact_kind else (lambda seen, orig: "")
+    table_rw = has_rewards and inter[0]["rewards"]["kind"] in ("list", "dpair", "dmap", "fn", "binary")
 
     P = [e for e in trace if e["e"] == "predict"]
     L = [e for e in trace if e["e"] == "learn"]
@@ -552,8 +609,9 @@ def model_check(spec, rows, trace, batch, note, p_default=None):
         note("oracle.trace.predict")
         if not same_context(pe["context"], t):
             V.append((f"trace.predict-args/context/{ftag}", f"predict #{t} saw context {pe['context']!r}, interaction {t} has {plain(inter[t].get('context'))!r}")); return V
+        if exact_kind: note(f"oracle.exact.predict-actions:{exact_kind}")
         if not same_actions(pe["actions"], t):
-            V.append((f"trace.predict-args/actions/{ftag}", f"predict #{t} saw actions {pe['actions']!r}, interaction {t} has {plain(inter[t].get('actions'))!r}")); return V
+            V.append((f"trace.predict-args/actions/{ftag}{xtag(pe['actions'], plain(inter[t].get('actions')))}", f"predict #{t} saw actions {pe['actions']!r}, interaction {t} has {plain(inter[t].get('actions'))!r}")); return V
     for t, se in enumerate(S):
         note("oracle.trace.score")
         ok = same_context(se["context"], t) and same_actions(se["actions"], t)
@@ -576,10 +634,12 @@ def model_check(spec, rows, trace, batch, note, p_default=None):
             exp_a, exp_p, exp_kw = pe["action"], pe["p"], pe["kw"]
             exp_r = on_reward(t) if learn == "on" else ips_reward(t, chosen_is_logged(t))
             a_ok = le["action"] is exp_a or le["action"] == exp_a
+        xnote("learn-action")
         if not a_ok:
-            V.append((f"trace.learn-args/action/{ltag}", f"learn #{t} got action {le['action']!r}, expected {plain(exp_a) if learn=='off' else exp_a!r}")); return V
+            V.append((f"trace.learn-args/action/{ltag}{xtag(le['action'], plain(exp_a) if learn == 'off' else exp_a)}", f"learn #{t} got action {le['action']!r}, expected {plain(exp_a) if learn=='off' else exp_a!r}")); return V
         if rag_p and learn == "ips" and exp_r != 0: note("oracle.ragged.ips-reward.learn")
-        if not num_eq(le["reward"], exp_r):
+        if learn == "on" and table_rw: note("oracle.exact.reward.learn")
+        if not rew_eq(le["reward"], exp_r, learn == "on" and table_rw):
             V.append((f"trace.learn-args/reward/{ltag}{rtag if learn == 'ips' else ''}", f"learn #{t} got reward {le['reward']!r}, expected {exp_r!r} (interaction {plain(inter[t])!r})")); return V
         if not (le["p"] is None and exp_p is None) and not num_eq(le["p"], exp_p):
             V.append((f"trace.learn-args/probability/{ltag}", f"learn #{t} got probability {le['p']!r}, expected {exp_p!r}")); return V
@@ -624,14 +684,16 @@ def model_check(spec, rows, trace, batch, note, p_default=None):
                     exp = (S[t]["s"] * ips_reward(t, True)) if score_path else on_reward(t) if eval_ == "on" else ips_reward(t, chosen_is_logged(t))
                     note_("oracle.rows.reward.on" if eval_ == "on" else "oracle.rows.reward.ips.score" if score_path else "oracle.rows.reward.ips.predict")
                     if rag_p and eval_ == "ips" and exp != 0: note_("oracle.ragged.ips-reward.rows.score" if score_path else "oracle.ragged.ips-reward.rows.predict")
-                    if "reward" not in row or not num_eq(row["reward"], exp):
+                    if eval_ == "on" and table_rw: note_("oracle.exact.reward.rows")
+                    if "reward" not in row or not rew_eq(row["reward"], exp, eval_ == "on" and table_rw):
                         V.append((f"rows.reward/{'score-path/' if score_path else ''}{etag}{rtag if eval_ == 'ips' else ''}", f"row {t}: reward {row.get('reward','<absent>')!r}, expected {exp!r} (interaction {plain(inter[t])!r})")); return V
                 elif "reward" in row:
                     V.append((f"rows.reward/recorded-without-eval/{btag}", f"row {t} has a reward {row['reward']!r} although eval=None")); return V
             if "action" in record and (eval_ or "action" in row):
                 note_("oracle.rows.action")
+                if exact_kind: note_("oracle.exact.rows-action")
                 if not did_pred or "action" not in row or not (row["action"] is P[t]["action"] or row["action"] == P[t]["action"]):
-                    V.append((f"rows.action/{etag}", f"row {t}: action {row.get('action','<absent>')!r}, learner chose {P[t]['action'] if did_pred else '<no predict>'!r}")); return V
+                    V.append((f"rows.action/{etag}{xtag(row['action'], P[t]['action']) if did_pred and 'action' in row else ''}", f"row {t}: action {row.get('action','<absent>')!r}, learner chose {P[t]['action'] if did_pred else '<no predict>'!r}")); return V
             if "probability" in record and (eval_ or "probability" in row):
                 exp_p = P[t]["p"] if did_pred else None
                 note_("oracle.rows.probability")
@@ -648,8 +710,9 @@ def model_check(spec, rows, trace, batch, note, p_default=None):
                     V.append((f"rows.context/{ftag}", f"row {t}: context {row.get('context','<absent>')!r}, interaction has {plain(inter[t].get('context'))!r}")); return V
             if "actions" in record and has_actions:
                 note_("oracle.rows.actions")
+                if exact_kind: note_("oracle.exact.rows-actions")
                 if "actions" not in row or not same_actions(row["actions"], t):
-                    V.append((f"rows.actions/{ftag}", f"row {t}: actions {row.get('actions','<absent>')!r}, interaction has {plain(inter[t]['actions'])!r}")); return V
+                    V.append((f"rows.actions/{ftag}{xtag(row['actions'], plain(inter[t]['actions'])) if 'actions' in row else ''}", f"row {t}: actions {row.get('actions','<absent>')!r}, interaction has {plain(inter[t]['actions'])!r}")); return V
             if "rewards" in record and has_rewards:
                 note_("oracle.rows.rewards")
                 rs = inter[t]["rewards"]
@@ -659,7 +722,7 @@ def model_check(spec, rows, trace, batch, note, p_default=None):
                     except Exception: ok = False
                 else:
                     exp = [reward_at(rs, j=j, x=plain(a)) for j, a in enumerate(inter[t]["actions"])]
-                    try: ok = len(row["rewards"]) == len(exp) and all(num_eq(x, y) for x, y in zip(row["rewards"], exp))
+                    try: ok = len(row["rewards"]) == len(exp) and all(rew_eq(x, y, table_rw) for x, y in zip(row["rewards"], exp))
                     except Exception: ok = False
                 if not ok:
                     V.append((f"rows.rewards/{btag}", f"row {t}: rewards {row.get('rewards','<absent>')!r} for interaction {plain(inter[t])!r}")); return V
@@ -760,6 +823,8 @@ def check_case(spec, ctx=None):
                 spec2["kinds"] = dict(spec["kinds"], actions="none", cat_action=spec["kinds"]["actions"] == "cat")
             v2 = model_check(spec2, rows_r, trace_r, batch, lambda n: None, p_default=1)
             if v2 and v2[0][0].startswith("rows.batched-rows-not-unbatched"): V.append(v2[0]); break
+            if v2 and key == "probability" and v2[0][0].startswith(("trace.predict-args", "trace.score-args")):
+                V.append(v2[0]); break            # what predict/score are offered cannot depend on the logged probability
             if v2:
                 V.append((f"reject.mis-evaluated/missing={key}/learn={learn}/eval={eval_}{'/batched' if batch else ''}",
                           f"environment without {key!r} was accepted but not evaluated as the documented fallback: {v2[0][1]}")); break
